@@ -14,7 +14,7 @@ TRUSTED = [
     "theorems about arbitrary documents (c15_de_wt, c15_reserialise_stable, c15_staged_eq_direct_docs) have no side condition on the document; that the model's `de` is serde's on such documents (repeated key: error for a struct field, last wins in a map, ignored when unknown; integer token read as the nearest float; absent / null optional fields) is validated on edited documents every run, not proved; struct-from-array, integers of any size in a float position (C08's FloatRyu model: nearest binary64, shortest digits) and pre-release / build identifiers of a VersionReq included",
     "translators vplib/translate/gen_serde.py (type/attribute scanner over pr/*.rs, lr.rs, span.rs, generic.rs, ir/rq/*.rs, ir/generic.rs, ir/pl/extra.rs; fail closed on unmodelled attributes / type constructors; shape check of the hand-written Span and Ident impls) and gen_entry.py (call chains of lib.rs)",
     "modelled, not verified: coq/Model/Serde.v re-states serde-derive's rules (externally tagged enums, flatten of an enum through FlatMapSerializer/FlatMapDeserializer, skip_serializing_if, default, missing Option field = None); validated on every run against real serde on the implementation's own JSON and on descriptor-generated values",
-    "serde_json's text layer (escaping, number printing by ryu; that a finite f64 survives print / parse is NOT true of serde_json's default parser: finding F14c, tested on full-precision literals every run); that Model/VersionReq.v is semver 1.0.27's from_str / Display (validated every run on ~500 requirement texts against the real crate, python twin and Coq); C08's Model/FloatRyu.v (round64, shortest) for integers beyond 2^53 read as floats",
+    "serde_json's text layer (escaping, number printing by ryu; that a finite f64 survives print / parse needs serde_json's `float_roundtrip` (on since 79abe54; finding F14c); tested on full-precision literals every run); that Model/VersionReq.v is semver 1.0.27's from_str / Display (validated every run on ~500 requirement texts against the real crate, python twin and Coq); C08's Model/FloatRyu.v (round64, shortest) for integers beyond 2^53 read as floats",
     "the stage functions (parser, resolver, SQL back end) are abstract in staged_eq_direct; that they are functions of their argument alone is C11",
     "python mirror vplib/props/c15_serde.py of the Coq model (cross-checked against Eval vm_compute on a sample each run)",
     "correspondence harness (harness/src/c15.rs, main.rs) and python comparison",
